@@ -191,6 +191,8 @@ func c18Compare(st *c18Stats, name string, exec func(kind string) c18Obs) *engin
 type c18L1Sys struct {
 	inner *c16L1Sys
 	st    *c18Stats
+	sweep int      // as c18L2Sys.sweep
+	swept sync.Map // as c18L2Sys.swept
 	twins map[*world.L1]*world.L1
 	mu    sync.Mutex
 }
@@ -215,42 +217,96 @@ func (y *c18L1Sys) twin(w *world.L1) *world.L1 {
 
 func (y *c18L1Sys) Step(s *c16L1State, l engine.Letter) (*c16L1State, string, *engine.Violation) {
 	if l.Data == nil {
-		return y.inner.Step(s, l)
+		c, o, v := y.inner.Step(s, l)
+		if c != nil {
+			c.depth = s.depth + 1
+		}
+		return c, o, v
 	}
 	op := l.Data.(c16L1Op)
 	var kept sdk.Context
 	var keptOK bool
 	tw := y.twin(s.w)
-	v := c18Compare(y.st, l.Name, func(kind string) c18Obs {
+	run := func(kind string, limit int64) (c18Obs, sdk.Context, bool) {
+		deliver := func(w *world.L1, ctx sdk.Context, m sdk.Msg) world.DeliverResult {
+			if limit >= 0 {
+				return w.DeliverGas(ctx, m, uint64(limit))
+			}
+			return w.Deliver(ctx, m)
+		}
 		switch kind {
 		case "twin":
 			tctx, _ := tw.Ctx.CacheContext()
 			tctx = tctx.WithBlockHeight(s.ctx.BlockHeight()).WithBlockTime(s.ctx.BlockTime())
 			world.CopyState(s.ctx, s.w.StoreKeys, tctx, tw.StoreKeys)
 			ts := &c16L1State{ctx: tctx, w: tw}
-			r := tw.Deliver(tctx, op.msg(ts))
+			r := deliver(tw, tctx, op.msg(ts))
 			o := obsOf(r)
 			o.dump = dumpHash(tctx, tw)
-			return o
+			return o, tctx, r.OK()
 		default:
 			ctx, _ := s.ctx.CacheContext()
-			r := s.w.Deliver(ctx, op.msg(s))
+			r := deliver(s.w, ctx, op.msg(s))
 			o := obsOf(r)
 			o.dump = dumpHash(ctx, s.w)
-			if kind == "A" {
-				kept, keptOK = ctx, r.OK()
-			}
-			return o
+			return o, ctx, r.OK()
 		}
+	}
+	v := c18Compare(y.st, l.Name, func(kind string) c18Obs {
+		o, ctx, ok := run(kind, -1)
+		if kind == "A" {
+			kept, keptOK = ctx, ok
+		}
+		return o
 	})
-	c := &c16L1State{ctx: kept, w: s.w, nbr: s.nbr}
+	c := &c16L1State{ctx: kept, w: s.w, nbr: s.nbr, depth: s.depth + 1}
 	if v != nil {
 		return c, "x", v
+	}
+	if s.depth <= y.sweep {
+		d := y.Digest(s)
+		key := string(d[:]) + l.Name
+		sv, done := y.swept.Load(key)
+		if !done {
+			end := c18MapBegin(nil)
+			bctx, _ := s.ctx.CacheContext()
+			marks := s.w.GasTrace(bctx, op.msg(s))
+			end()
+			sv = c18Sweep(y.st, l.Name, marks, run)
+			y.swept.Store(key, sv)
+		}
+		if v := sv.(*engine.Violation); v != nil {
+			return c, "x", v
+		}
 	}
 	if keptOK {
 		return c, "accepted", nil
 	}
 	return c, "rejected", nil
+}
+
+// c18Sweep re-runs a message under every gas limit derived from the marks of its unlimited execution.
+func c18Sweep(st *c18Stats, name string, marks []uint64, run func(kind string, limit int64) (c18Obs, sdk.Context, bool)) *engine.Violation {
+	for _, lim := range c18Limits(marks) {
+		lim := lim
+		first := true
+		v := c18Compare(st, fmt.Sprintf("%s under a gas limit of %d", name, lim), func(kind string) c18Obs {
+			o, _, ok := run(kind, int64(lim))
+			if kind == "A" && first {
+				first = false
+				st.gasLimits.Add(1)
+				if !ok && strings.HasPrefix(o.err, "panic: ") {
+					st.gasOOG.Add(1)
+				}
+			}
+			return o
+		})
+		if v != nil {
+			v.Tags["under-gas-limit"] = "true"
+			return v
+		}
+	}
+	return (*engine.Violation)(nil)
 }
 
 // ------------------------------------------------------------------------------------------ L2
@@ -502,26 +558,7 @@ func (y *c18L2Sys) gasSweep(s *c18L2State, op c18L2Op, name string, run func(kin
 	marks := s.w.GasTrace(bctx, y.message(op, s.w, bctx))
 	s.w.K.ExecutorChangePlans = map[uint64]opchildtypes.ExecutorChangePlan{}
 	end()
-	for _, lim := range c18Limits(marks) {
-		lim := lim
-		first := true
-		v := c18Compare(y.st, fmt.Sprintf("%s under a gas limit of %d", name, lim), func(kind string) c18Obs {
-			o, _, ok := run(kind, int64(lim))
-			if kind == "A" && first {
-				first = false
-				y.st.gasLimits.Add(1)
-				if !ok && strings.HasPrefix(o.err, "panic: ") {
-					y.st.gasOOG.Add(1)
-				}
-			}
-			return o
-		})
-		if v != nil {
-			v.Tags["under-gas-limit"] = "true"
-			return v
-		}
-	}
-	return (*engine.Violation)(nil)
+	return c18Sweep(y.st, name, marks, run)
 }
 
 // c18Limits: for the cumulative gas marks m1 < m2 < … of an execution, the limits mi−1 (the i-th charge
@@ -603,7 +640,7 @@ func init() {
 			st := newC18Stats()
 			o := opts(rc, pick(rc, 3, 4))
 			o.Deadline = time.Now().Add(time.Until(rc.Deadline()) / 2)
-			rep, err := engine.Explore[*c16L1State](&c18L1Sys{inner: newC16L1Sys(), st: st, twins: map[*world.L1]*world.L1{}}, o)
+			rep, err := engine.Explore[*c16L1State](&c18L1Sys{inner: newC16L1Sys(), st: st, sweep: pick(rc, 0, 1), twins: map[*world.L1]*world.L1{}}, o)
 			if err != nil {
 				res.HarnessErr = err
 				return res
@@ -617,7 +654,7 @@ func init() {
 			res.Absorb("l2", rep2)
 			res.Coverage["executions"] = st.execs.Load()
 			res.Coverage["map_order_runs"] = st.permRuns.Load()
-			res.Coverage["gas_limit_sweep"] = map[string]any{"limits_tried": st.gasLimits.Load(), "of_which_out_of_gas": st.gasOOG.Load(), "states": "every message letter of every L2 state at depth ≤ " + fmt.Sprint(pick(rc, 0, 1)) + " (L1: root)", "limits": "for the cumulative gas after every single charge of the unlimited execution, that value − 1, plus the total"}
+			res.Coverage["gas_limit_sweep"] = map[string]any{"limits_tried": st.gasLimits.Load(), "of_which_out_of_gas": st.gasOOG.Load(), "states": "every message letter of every L2 state at depth ≤ " + fmt.Sprint(pick(rc, 0, 1)) + " (L1: the same)", "limits": "for the cumulative gas after every single charge of the unlimited execution, that value − 1, plus the total"}
 			res.Require(st.gasOOG.Load() > 0, "the gas-limit sweep never produced an out-of-gas execution")
 			res.Coverage["map_sites_reached"] = st.sites
 			res.Coverage["alphabet"] = "L1: every ophost message type (C16's alphabet) + time; L2: credited/refunded deposits, withdrawal, AddValidator ×3, RemoveValidator ×3, UpdateParams, UpdateOracle with three voters (a fresh timestamp with partial pair coverage; every pair under the newest stored timestamp, which is rejected part-way), RegisterPlan, NextBlock (real End/BeginBlocker)"
@@ -648,7 +685,7 @@ func init() {
 			case "l2":
 				return engine.Replay[*c18L2State](&c18L2Sys{st: st, votes: c18Votes(), sweep: 1, twins: map[*world.L2]*world.L2{}}, path)
 			}
-			return engine.Replay[*c16L1State](&c18L1Sys{inner: newC16L1Sys(), st: st, twins: map[*world.L1]*world.L1{}}, path)
+			return engine.Replay[*c16L1State](&c18L1Sys{inner: newC16L1Sys(), st: st, sweep: 1, twins: map[*world.L1]*world.L1{}}, path)
 		},
 	})
 }
